@@ -27,7 +27,7 @@ def schedule(case, d):
     shutil.copytree(template(d, n), path)
     env = dict(os.environ)
     p = subprocess.run([sys.executable, os.path.join(os.path.dirname(__file__), 'sched_child.py')],
-                       input=json.dumps(dict(path=path, acts=case['acts'])), capture_output=True, text=True,
+                       input=json.dumps(dict(path=path, acts=case['acts'], mode=case.get('mode', 'r+'))), capture_output=True, text=True,
                        env=env, timeout=300)
     lines = [l for l in p.stdout.splitlines() if l.strip()]
     out = dict(returncode=p.returncode)
